@@ -3065,6 +3065,16 @@ impl KotoVm {
             self.set_register(result_register, KIterator::with_vm(generator_vm).into());
         }
 
+        // Like native calls, generator calls don't use the push/pop frame mechanism, and unpacking
+        // packed arguments may have shortened the register stack: ensure that the calling frame
+        // still has the required number of registers.
+        if !self.call_stack.is_empty() {
+            let min_frame_registers = self.register_index(self.frame().required_registers);
+            if self.registers.len() < min_frame_registers {
+                self.registers.resize(min_frame_registers, KValue::Null);
+            }
+        }
+
         Ok(())
     }
 
